@@ -1417,7 +1417,9 @@ class SyncObj(object):
                 sameIdxEntries = self.__getEntries(data[1][1], 1)
                 if data[1][1] <= self.__raftLastApplied or \
                         (sameIdxEntries and sameIdxEntries[0][2] == data[1][2]):
+                    self.__serializer.acceptTransmission(False)
                     return data[1][1]
+                self.__serializer.acceptTransmission(True)
             if data[0] is not None:
                 if self.__consumers:
                     selfData = data[0][0]
@@ -1455,6 +1457,7 @@ class SyncObj(object):
             self.__onSetCodeVersion(0)
         except:
             logger.exception('failed to load full dump')
+            self.__serializer.acceptTransmission(False)
 
     def __updateClusterConfiguration(self, newNodes):
         # newNodes: list of Node or node ID
